@@ -9,6 +9,7 @@
 #define BOOST_GIL_EXTENSION_IO_BMP_DETAIL_READER_BACKEND_HPP
 
 #include <boost/gil/extension/io/bmp/tags.hpp>
+#include <boost/gil/io/bit_operations.hpp>
 
 #include <algorithm>
 #include <cstddef>
@@ -119,6 +120,8 @@ public:
             _info._num_colors           = _io_dev.read_uint32();
             _info._num_important_colors = _io_dev.read_uint32();
 
+            // the color masks of a bit-field image follow the header
+            read_color_masks();
         }
         else if( _info._header_size == bmp_header_size::_os2_info_size )
         {
@@ -162,8 +165,14 @@ public:
             _info._num_colors = _io_dev.read_uint32();
             _info._num_important_colors = _io_dev.read_uint32();
 
+            // the color masks are the next fields of a V4 or V5 header
+            std::size_t const mask_bytes = read_color_masks();
+
             // the remaining fields of the header are not used, but they have to be there
-            skip_bytes( _info._header_size - bmp_header_size::_win32_info_size );
+            std::size_t const extra_bytes = _info._header_size - bmp_header_size::_win32_info_size;
+
+            io_error_if( extra_bytes < mask_bytes, "Invalid BMP info header." );
+            skip_bytes( extra_bytes - mask_bytes );
         }
         else
         {
@@ -221,6 +230,39 @@ public:
             }
 
         } // for
+    }
+
+    /// Reads the color masks of a bit-field image.
+    /// Returns the number of bytes read.
+    std::size_t read_color_masks()
+    {
+        if( _info._compression != bmp_compression::_bitfield )
+        {
+            return 0;
+        }
+
+        bit_field* fields[] = { &_mask.red, &_mask.green, &_mask.blue };
+
+        for( bit_field* f : fields )
+        {
+            f->mask  = _io_dev.read_uint32();
+            f->width = detail::count_ones( f->mask );
+            f->shift = detail::trailing_zeros( f->mask );
+
+            // 15 and 16 bit pixels are expanded to 8 bit channels: every mask has to be
+            // a group of at most 8 adjacent bits inside the pixel
+            if( _info._bits_per_pixel == 15 || _info._bits_per_pixel == 16 )
+            {
+                io_error_if(  f->mask == 0
+                           || f->width > 8
+                           || f->shift + f->width > 16
+                           || ( f->mask >> f->shift ) != ( 1u << f->width ) - 1
+                           , "Unsupported color mask in BMP file."
+                           );
+            }
+        }
+
+        return 3 * sizeof( uint32_t );
     }
 
     /// Reads and discards count bytes.
